@@ -1,7 +1,8 @@
 #!/bin/bash
 # MANIFEST.setup_cmd: build everything the checks need from files on disk (offline).
 set -e
-cd "$(dirname "$0")"
-export PYTHONPATH=/verif/harness:/repo/src PYTHONHASHSEED=0 PYTHONDONTWRITEBYTECODE=1
+HERE="$(cd "$(dirname "$0")" && pwd)"
+cd "$HERE"
+export PYTHONPATH="$HERE/harness:${PYLIFE_REPO:-/repo}/src" PYTHONHASHSEED=0 PYTHONDONTWRITEBYTECODE=1
 ulimit -s unlimited 2>/dev/null || true
 /venv/bin/python -B harness/setup_all.py
